@@ -420,6 +420,8 @@ def _add_custom_parameters(
         lambda dataset: dataset.expand_dims({"id": [index]})
     )
 
+    dim_idx = 0
+
     for coordinate_name, param_value in parameter_dict.items():
         short_name: str = dimension_names[coordinate_name]
 
@@ -433,7 +435,10 @@ def _add_custom_parameters(
 
         elif types[coordinate_name] == ParameterType.Multi:
             data = np.array(param_value)
-            data_array = xr.DataArray(data).expand_dims({"id": [index]})
+            data_array = xr.DataArray(
+                data, dims=[f"dim_{dim_idx + i}" for i in range(data.ndim)]
+            ).expand_dims({"id": [index]})
+            dim_idx += data.ndim
             data_tree = data_tree.map_over_datasets(  # type: ignore[assignment]
                 lambda dataset: dataset.assign_coords({short_name: data_array})
             )
